@@ -757,6 +757,12 @@ def r5b_assoc_consts(toks, log):
                 out += gen(str(R5B[key]), t)
                 i += 9
                 continue
+        # R5c: `Ipv4Addr::UNSPECIFIED` (an associated const Verus does not know) -> a shim function that returns it
+        if t.text == "Ipv4Addr" and i + 2 < len(toks) and toks[i + 1].text == "::" and toks[i + 2].text == "UNSPECIFIED":
+            log.add("R5b", t, "Ipv4Addr::UNSPECIFIED")
+            out += gen("verif_ipv4_unspecified()", t)
+            i += 3
+            continue
         out.append(t); i += 1
     return out
 
